@@ -9,6 +9,7 @@ package table
 
 import (
 	"container/list"
+	"sync"
 	"time"
 
 	enc "github.com/named-data/ndnd/std/encoding"
@@ -17,6 +18,11 @@ import (
 // RibTable represents the Routing Information Base (RIB).
 type RibTable struct {
 	RibEntry
+
+	// mutex serializes all accesses to the RIB: the management thread registers,
+	// unregisters and lists routes while the goroutines of destroyed faces clean up
+	// their routes (face.Table.Remove).
+	mutex sync.Mutex
 }
 
 // RibEntry represents an entry in the RIB table.
@@ -167,6 +173,9 @@ func (r *RibEntry) updateNexthopsEnc() {
 
 // AddRoute adds or updates a RIB entry for the specified prefix.
 func (r *RibTable) AddEncRoute(name enc.Name, route *Route) {
+	r.mutex.Lock()
+	defer r.mutex.Unlock()
+
 	name = name.Clone()
 	node := r.fillTreeToPrefixEnc(name)
 	if node.Name == nil {
@@ -190,6 +199,9 @@ func (r *RibTable) AddEncRoute(name enc.Name, route *Route) {
 
 // GetAllEntries returns all routes in the RIB.
 func (r *RibTable) GetAllEntries() []*RibEntry {
+	r.mutex.Lock()
+	defer r.mutex.Unlock()
+
 	entries := make([]*RibEntry, 0)
 	// Walk tree in-order
 	queue := list.New()
@@ -202,9 +214,15 @@ func (r *RibTable) GetAllEntries() []*RibEntry {
 			queue.PushFront(child)
 		}
 
-		// If has any routes, add to list
+		// If has any routes, add a snapshot to the list (the caller reads it unlocked)
 		if len(ribEntry.routes) > 0 {
-			entries = append(entries, ribEntry)
+			snapshot := &RibEntry{Name: ribEntry.Name, depth: ribEntry.depth}
+			snapshot.routes = make([]*Route, len(ribEntry.routes))
+			for i, route := range ribEntry.routes {
+				routeCopy := *route
+				snapshot.routes[i] = &routeCopy
+			}
+			entries = append(entries, snapshot)
 		}
 	}
 	return entries
@@ -217,6 +235,9 @@ func (r *RibEntry) GetRoutes() []*Route {
 
 // RemoveRoute removes the specified route from the specified prefix.
 func (r *RibTable) RemoveRouteEnc(name enc.Name, faceID uint64, origin uint64) {
+	r.mutex.Lock()
+	defer r.mutex.Unlock()
+
 	entry := r.findExactMatchEntryEnc(name)
 	if entry != nil {
 		for i, route := range entry.routes {
@@ -235,10 +256,17 @@ func (r *RibTable) RemoveRouteEnc(name enc.Name, faceID uint64, origin uint64) {
 }
 
 // CleanUpFace removes the specified face from all entries. Used for clean-up after a face is destroyed.
-func (r *RibEntry) CleanUpFace(faceId uint64) {
+func (r *RibTable) CleanUpFace(faceId uint64) {
+	r.mutex.Lock()
+	defer r.mutex.Unlock()
+
+	r.RibEntry.cleanUpFace(faceId)
+}
+
+func (r *RibEntry) cleanUpFace(faceId uint64) {
 	// Recursively clean children
 	for child := range r.children {
-		child.CleanUpFace(faceId)
+		child.cleanUpFace(faceId)
 	}
 
 	if r.Name == nil {
